@@ -393,7 +393,7 @@ func runC08(e *Engine, r *Report, tier string) {
 		if !strings.Contains(fnPkgPath(f), "x/evm/keeper") {
 			return false
 		}
-		switch f.Name() {
+		switch canonName(f.Name()) {
 		case "CallEVM", "CallEVMWithoutGas", "ApplyContract":
 			return true
 		}
@@ -413,7 +413,11 @@ func runC08(e *Engine, r *Report, tier string) {
 			for f := range reach {
 				if isNestedEVM(f) {
 					p := e.PathTo([]*ssa.Function{s.Closure}, func(x *ssa.Function) bool { return x == f }, func(x *ssa.Function) bool { return !isFx(x) })
-					found[sinkPath{m.Name, e.FnKey(f)}] = p
+					label := m.Name
+					if m.ABIName != "" {
+						label = "precompile " + m.ABIName
+					}
+					found[sinkPath{label, e.CanonFnKey(f)}] = p
 				}
 			}
 		}
